@@ -53,7 +53,8 @@ def impl_parse(s, cls=None):
         seq = ','.join(_entry(m, a, pos) for a in fmt.seq_arguments)
         mp = ';'.join(hexchars(k) + '=' + ','.join(_entry(m, a, pos) for a in args) for k, args in fmt.map_arguments.items())
         ws = ','.join(type(w).__name__ for w in fmt.warnings)
-        return f"ok items=[{its}] seq=[{seq}] map=[{mp}] warnings=[{ws}]"
+        sc = ','.join(str(pos.get(id(a), '?')) for a in fmt.seq_conversions)
+        return f"ok items=[{its}] seq=[{seq}] map=[{mp}] warnings=[{ws}] sc=[{sc}]"
     except Exception as exc:
         return 'err attr:' + type(exc).__name__
 
@@ -505,8 +506,26 @@ def run_oracle_stream(chk, strings, per_string=2):
     chk.coverage['streams']['pyfmt-oracle']['skipped_for_allocation'] = chk.coverage['streams']['pyfmt-oracle'].get('skipped_for_allocation', 0) + skipped
     return [pairs[i] for i in dis]
 
+def shrink(s, kind, limit=3000):
+    """delete chunks while the same kind of violation remains (delta debugging, bounded)"""
+    cur, calls = s, 0
+    changed = True
+    while changed and calls < limit:
+        changed = False
+        for size in (16, 8, 4, 2, 1):
+            i = 0
+            while i < len(cur) and calls < limit:
+                cand = cur[:i] + cur[i + size:]
+                calls += 1
+                r = check_property(cand)
+                if r is not None and r.get('kind') == kind:
+                    cur, changed = cand, True
+                else:
+                    i += 1
+    return cur
+
 def falsify(chk, strings, budget, stats):
-    """the property on the real code; returns (first genuine counterexample or None, tried)"""
+    """the property on the real code; returns (first genuine counterexample (shrunk) or None, tried)"""
     tried = 0
     seen = set()
     for s in strings:
@@ -519,6 +538,13 @@ def falsify(chk, strings, budget, stats):
         rep = check_property(s, stats)
         if rep is None:
             continue
+        if not chk.match_known(rep['key']):
+            small = shrink(s, rep['kind'])
+            if small != s:
+                rep2 = check_property(small)
+                if rep2 is not None and rep2.get('kind') == rep['kind']:
+                    rep2['found_as'] = rep['input']
+                    rep = rep2
         key = rep.pop('key')
         if chk.violation(rep['kind'], rep, key=key):
             return rep, tried
